@@ -144,6 +144,7 @@ pub fn apply_directive(w: &[&str]) -> bool {
                 "zero" => 1,
                 "max" => 2,
                 "calldep" => 3,
+                "calldep_near" => 4,
                 _ => panic!("hashrule"),
             };
             with_ctx(|c| c.hash_rule = r);
@@ -153,6 +154,7 @@ pub fn apply_directive(w: &[&str]) -> bool {
             let r = match w[1] {
                 "lawful" => 0,
                 "calldep" => 3,
+                "calldep_near" => 4,
                 _ => panic!("eqrule"),
             };
             with_ctx(|c| c.eq_rule = r);
@@ -846,7 +848,9 @@ pub fn do_op<K: KeyT, V: ValT>(m: &mut Map<K, V>, w: &[&str], chk: &mut Vec<Stri
                 _ => (fin::<K, V, 4>(m.get_many_key_value_mut([&ks[0], &ks[1], &ks[2], &ks[3]]), add, chk), vals::<V, 4>(m.get_many_mut([&ks[0], &ks[1], &ks[2], &ks[3]]))),
             };
             let want: Vec<Option<u64>> = got.iter().map(|o| o.map(|x| x.2)).collect();
-            if want != again {
+            // two separate calls can only be compared when Hash and Eq answer consistently
+            let lawful = with_ctx(|c| c.hash_rule < 3 && c.eq_rule == 0);
+            if lawful && want != again {
                 chk.push("get_many_mut and get_many_key_value_mut disagree".into());
             }
             let parts: Vec<String> = got.iter().map(|o| match o { Some((k, s, v)) => format!("{}:{}:{}", k, s, v), None => "none".into() }).collect();
